@@ -60,7 +60,7 @@ def check(rep):
     import gbigsmiles
     from rdkit import Chem
 
-    coq = fw.coq_check("C02", ["SrcBond"])
+    coq = fw.coq_check("C02", ["SrcBond", "SrcDescr", "SrcToken", "SrcStochParse"])
     quick = rep.tier == "quick"
     rnd = random.Random(rep.seed + 2)
     evaluations = 0
